@@ -2,6 +2,7 @@ package batching
 
 import (
 	"context"
+	"sync"
 
 	"reduction.dev/reduction/util/verifhook"
 )
@@ -17,6 +18,11 @@ type ReorderFetcher[T, R any] struct {
 	fetchBatch BatchFetcher[T, R]
 	errChan    chan error
 	buffer     *ReorderBuffer[[]R]
+
+	// flushMu makes taking a batch from the batcher and reserving its sequence
+	// number one atomic step, so batches are sequenced in the order they were
+	// flushed even when the size flusher and the time-out flusher run concurrently.
+	flushMu sync.Mutex
 }
 
 type NewReorderFetcherParams[T, R any] struct {
@@ -71,16 +77,19 @@ func (d *ReorderFetcher[T, R]) Flush(ctx context.Context) {
 
 // flush the current batch and then asynchronously run the `FetchBatch` callback.
 func (d *ReorderFetcher[T, R]) flush(ctx context.Context, token BatchToken) {
+	d.flushMu.Lock()
 	events := d.batcher.Flush(token)
 	if d.batcher == nil {
 		panic("batcher became nil")
 	}
 	if len(events) == 0 {
+		d.flushMu.Unlock()
 		return
 	}
 
 	verifhook.Point("reorder.flush.between")
 	seqNum := d.buffer.Reserve()
+	d.flushMu.Unlock()
 	go func() {
 		result, err := d.fetchBatch(ctx, events)
 		if err != nil {
